@@ -346,10 +346,18 @@ def r_bindnames(c):
         raise AnalysisError(f"only {n} dim_to_index_lambda_components call sites in lowering")
 
 
+def r_broadcast(c):
+    """broadcasting decisions on (possibly symbolic) axis lengths: shared with C03"""
+    from pta.rules.c03 import SHAPE_MODULES, broadcast_folds
+    n = broadcast_folds(c, "R16-BROADCAST", SHAPE_MODULES)
+    if n < 2:
+        raise AnalysisError(f"only {n} broadcast decision trees found (floor 2)")
+
+
 SPEC = Spec(
     prop="C16",
-    rules=[r_route, r_decision, r_bindnames],
-    floors={"R16-ROUTE": 12, "R16-DECISION": 13, "R16-BINDNAMES": 3},
+    rules=[r_route, r_decision, r_bindnames, r_broadcast],
+    floors={"R16-ROUTE": 12, "R16-DECISION": 13, "R16-BINDNAMES": 3, "R16-BROADCAST": 8},
     explanation=(
         "R16-ROUTE (who-may-compare): local shape typing (X.shape / newshape, "
         "subscripts and slices of it, variables assigned from it, parameters and "
@@ -367,7 +375,9 @@ SPEC = Spec(
         "test. R16-BINDNAMES: symbolic shape components enter a lowered index "
         "lambda through dim_to_index_lambda_components with a name generator that "
         "is seeded with the operand binding names and shared by all calls of a "
-        "loop."),
+        "loop. R16-BROADCAST: every broadcasting decision tree on axis lengths, "
+        "evaluated on its consistent abstract cases (equal / new is 1 / remembered "
+        "is 1 / neither), does what NumPy broadcasting does (shared with R03-FOLD)."),
     not_decided=(
         "That one compiled kernel is right for every size (behaviour of generated "
         "code) and that inferred shapes equal concrete shapes under every "
